@@ -30,7 +30,9 @@
   Flags of a class: accum (writes an outer scalar / last-wins variable), append, calls (opaque
   calls), concat (string +=), early (return / break / goto / panic / exit), go, keyed (writes
   cells indexed by the ranged key or through the ranged value), output (Print / Write), send
-  (channel send / close), sorted (an appended slice is sorted later in the function), pure.
+  (channel send / close), sorted (an appended slice is sorted later in the function), xdep (what one
+  iteration writes to an outer variable is decided by reading ANOTHER outer variable the loop also
+  writes: order sensitive although every statement is a plain assignment), pure.
 -/
 import BMV.Sched
 namespace BMV.Sched.Expect
@@ -279,10 +281,10 @@ def rows : List Row := [
   ⟨0x9cdf0261becbadd4, "range|pkg/bondgo/converter.go|(*BondgoCheck).Create_Bondmachine|creqs|0", ["accum", "calls"], .insens "body ignores the entry: one identical call per entry"⟩,
   ⟨0x9cee87cfae907883, "range|pkg/bondgo/converter.go|(*BondgoCheck).Create_Bondmachine|creqs|1", ["calls"], .unproved "shared-object links are appended per channel in map order"⟩,
   ⟨0x5a1febdac180ec18, "range|pkg/bondgo/converter.go|(*BondgoCheck).Create_Bondmachine|unconnected_inputs|0", ["append", "keyed", "sorted"], .sortedAfter⟩,
-  ⟨0x8da0a67a29b77359, "range|pkg/bondgo/converter.go|(*BondgoCheck).Create_Etherbond_Cluster|otherres.Map.Assoc|0", ["accum", "early"], .insens "computes existence flags (connected / multi) over all entries"⟩,
+  ⟨0x0391eafd608e8397, "range|pkg/bondgo/converter.go|(*BondgoCheck).Create_Etherbond_Cluster|otherres.Map.Assoc|0", ["accum", "early", "xdep"], .insens "counts the outputs connected to this id up to two (connected, then multi): whether there are at least one / at least two does not depend on the order"⟩,
   ⟨0x10de6c3ab149bfbe, "range|pkg/bondgo/converter.go|(*BondgoCheck).Create_Etherbond_Cluster|otherres.Map.Assoc|1", ["accum"], .insens "computes existence flags (connected / multi) over all entries"⟩,
   ⟨0x1fed7db5a9bf6031, "range|pkg/bondgo/converter.go|(*BondgoCheck).Create_Etherbond_Cluster|res.Map.Assoc|0", ["append", "early", "keyed"], .unproved "cluster peers inputs/outputs are appended in map order of the io map; not exercised by the corpus (needs -use-etherbond / -use-udpbond)"⟩,
-  ⟨0x5e30c777c81288b0, "range|pkg/bondgo/converter.go|(*BondgoCheck).Create_Udpbond_Cluster|otherres.Map.Assoc|0", ["accum", "early"], .insens "computes existence flags (connected / multi) over all entries"⟩,
+  ⟨0xee955ca9e0611778, "range|pkg/bondgo/converter.go|(*BondgoCheck).Create_Udpbond_Cluster|otherres.Map.Assoc|0", ["accum", "early", "xdep"], .insens "counts the outputs connected to this id up to two (connected, then multi): whether there are at least one / at least two does not depend on the order"⟩,
   ⟨0x3b4c200f144274ef, "range|pkg/bondgo/converter.go|(*BondgoCheck).Create_Udpbond_Cluster|otherres.Map.Assoc|1", ["accum"], .insens "computes existence flags (connected / multi) over all entries"⟩,
   ⟨0x40f771f0051b7928, "range|pkg/bondgo/converter.go|(*BondgoCheck).Create_Udpbond_Cluster|res.Map.Assoc|0", ["append", "early", "keyed"], .unproved "cluster peers inputs/outputs are appended in map order of the io map; not exercised by the corpus (needs -use-etherbond / -use-udpbond)"⟩,
   ⟨0xb51dce4ca8586608, "range|pkg/bondgo/converter.go|Assembly_2_Processor|bgmain.Program|0", ["send"], .insens "one ROM-size notification per routine to the usage monitor, which keeps a maximum per processor"⟩,
